@@ -111,8 +111,13 @@ def with_charge(sp, rnd):
     Z = PT_DATA[sp["el"]][0]
     r = rnd.random()
     if r < 0.45:
-        lo = -min(Z, 3)
-        sp["ion"] = rnd.choice([i for i in range(lo, 4) if i != 0])
+        # charge numbers of one digit and, for a third of the charged species, of two digits (down to the bare
+        # nucleus: the number of electrons stays >= 0; up to +40)
+        if rnd.random() < 0.33:
+            cand = [i for i in range(-min(Z, 40), -9)] + list(range(10, 41))
+        else:
+            cand = [i for i in range(-min(Z, 9), 10) if i != 0]
+        sp["ion"] = rnd.choice(cand)
         if abs(sp["ion"]) == 1 and rnd.random() < 0.5:
             sp["ionfmt"] = "bare"
     if sp["el"] == "H" and sp["A"] in (2, 3) and rnd.random() < 0.6:
